@@ -81,3 +81,26 @@ claim("C10",
            "findings planar-parallel-axis-swapped-* are modelled as Dev_PlanarParallelAxisSwapped.",
       technique="TLA+ parameter state machine emitting exact symbolic terms (TLC) + spec-to-code replay",
       design_ref="DESIGN.md 5 C10")
+
+
+claim("C02",
+      text="TLC enumerates every manifold face-connected voxel solid up to MaxCells cells in a box (spec/Voxel3.tla: L, U, C, S "
+           "shapes; genus-1 frames by random growth), defines volume/area/centroid/second moments by counting unit cubes, and "
+           "proves in the spec that the coded area*offset volume, the Eberly centroid and the signed Kallay inertia over the "
+           "ear-clipped surface triangulation equal them; each boundary mesh is replayed into Polyhedron under rational "
+           "placements (scales 1e-3..1e3) and cyclic shifts of the face cycles.",
+      note="Trusted: TLC, vh/placement.py laws, tolerance table. Not decided: meshes with non-convex faces, generic float "
+           "meshes; extrusions and perturbed hulls are covered through C01/C09 states rather than separate generators.",
+      technique="TLA+ model checking (TLC) of a voxel-solid growth machine + spec-to-code replay",
+      design_ref="DESIGN.md 5 C02")
+
+claim("C05",
+      text="Membership is defined exactly in the specification - cell occupancy for voxel solids (with the T1 theorem that the "
+           "coded 3-D winding number with lexicographic tie-breaking decides the same on every half-lattice point incl. all "
+           "degenerate alignments), facet half-spaces for convex lattice polytopes, the quadratic-form term for spheres and "
+           "ellipsoids - and every (shape, point) classification emitted by TLC is replayed into Polyhedron, ConvexPolyhedron, "
+           "a Polyhedron copy of the convex solid, ConvexSpheropolyhedron (radius 0) and Sphere/Ellipsoid as batch and "
+           "single-point calls under rational placements.",
+      note="Boundary points are UNCLEAR and never asserted. Spheropolyhedra with positive radius: see evidence notes.",
+      technique="TLA+ model checking (TLC) of exact shape x point state spaces + spec-to-code replay",
+      design_ref="DESIGN.md 5 C05")
